@@ -283,6 +283,39 @@ Definition spec_C15 (c : c15case) (obs : list Z) : bool :=
       end
   end.
 
+(* ---------------------------------------------------------------- statements about histories *)
+(* the identifier clauses of step_ok, for one step *)
+Definition keeps_ids (M M' : dmodel) : Prop :=
+  stable_b (m_nss M) (m_nss M') = true /\ wf_b (m_nss M') = true /\ newfields_b (m_nss M) (m_nss M') = true.
+(* a relation between consecutive models holds at every step of a history, whatever its verdict *)
+Fixpoint chain (P : dmodel -> dmodel -> Prop) (M : dmodel) (l : list (option err * dmodel)) : Prop :=
+  match l with
+  | [] => True
+  | (_, M') :: r => P M M' /\ chain P M' r
+  end.
+Definition hist_ok := chain keeps_ids.
+(* every refused step leaves the model as it was *)
+Fixpoint refused_unchanged (M : dmodel) (l : list (option err * dmodel)) : Prop :=
+  match l with
+  | [] => True
+  | (e, M') :: r => (e <> None -> M' = M) /\ refused_unchanged M' r
+  end.
+
+(* where a reader finds a value: short name of the entity, of the field (the JSON key), its type *)
+Definition address (M : list nspace) (ns e f : N) : option (eshort * N * ftype) :=
+  match find_ns ns M with
+  | None => None
+  | Some n => match find_ent e (n_ents n) with
+              | None => None
+              | Some en => match find_field f (e_fields en) with
+                           | None => None
+                           | Some fl => Some (e_short en, f_short fl, f_type fl)
+                           end
+              end
+  end.
+Definition addresses_kept (M M' : dmodel) : Prop :=
+  forall ns e f a, address (m_nss M) ns e f = Some a -> address (m_nss M') ns e f = Some a.
+
 (* ---------------------------------------------------------------- known-finding classes *)
 (* class 1 (K1): a version that gives an existing entity two or more new fields at once: their
    storage identifiers follow the hash-map iteration order
